@@ -38,8 +38,9 @@ def make_script(system, r, *, dt_si, t_sample_si, policy="on_t_sample", t_max_si
             return q_bare(x, usys, TIME_DIM)
         own = r.choice(["s", "ms", "min", "µs", "ds"])
         return "%r %s" % (float(x / float(si.TIME[own])), own)
-    kw = dict(system=system, time_step=tq(dt_si), sampling_policy=policy, rng_seed=seed_form(r, seed),
-              init_state_processing=isp, units_system=UnitsSystem(**si.sys_dict(usys)))
+    from vf.gen import fresh        # option names as run-time strings (read from a file, lower()-ed...), not interned literals
+    kw = dict(system=system, time_step=tq(dt_si), sampling_policy=fresh(policy), rng_seed=seed_form(r, seed),
+              init_state_processing=fresh(isp), units_system=UnitsSystem(**si.sys_dict(usys)))
     kw["t_sample"] = [q_bare(x, usys, TIME_DIM) for x in t_sample_si]
     if t_max_si != "default":
         kw["t_max"] = tq(t_max_si)
